@@ -240,9 +240,8 @@ class Array(Node):
                 dim_units = list(dim_units) + ['unknown' for i in range(self.rank-len(dim_units))]
             else:
                 dim_units = dim_units[:self.rank]
-        dim_units = np.array(dim_units)
-        dim_units[dim_in_pixels] = 'pixels'
-        dim_units = tuple(dim_units)
+        dim_units = tuple(['pixels' if dim_in_pixels[i] else dim_units[i]
+            for i in range(self.rank)])
         # dim names
         if dim_names is None:
             dim_names = [f"dim{i}" for i in range(self.rank)]
